@@ -497,10 +497,37 @@ pub fn worker(wi: usize, wn: usize, tier: &str) {
         "dev_evals":dev_evals,"tpl_evals":tpl_evals,"frontier":frontier,"dev_accepts":dev_accepts}));
 }
 
+fn run_server_slice(tier: &str) -> Result<Value, String> {
+    let bin = std::env::var("SRVMC_BIN").map_err(|_| "SRVMC_BIN not set (run through bin/check)".to_string())?;
+    let out = std::process::Command::new(&bin).arg("C18S").arg(tier).env_remove("LD_PRELOAD").output().map_err(|e| format!("cannot run {bin}: {e}"))?;
+    let stdout = String::from_utf8_lossy(&out.stdout);
+    let line = stdout.lines().find_map(|l| l.strip_prefix("C18S-RESULT ")).ok_or_else(|| format!("no result line; exit {:?}; stderr: {}", out.status.code(), String::from_utf8_lossy(&out.stderr)))?;
+    serde_json::from_str(line).map_err(|e| format!("bad result: {e}"))
+}
+
 pub fn run(tier: &str, replay: Option<&str>) -> i32 {
     if let Some(p) = replay {
         let v: Value = serde_json::from_str(&std::fs::read_to_string(p).expect("read")).expect("json");
         let c = &v["case"];
+        if c["check"] == "C18S" {
+            let sig = v["signature"].as_str().unwrap_or("").to_string();
+            return match run_server_slice("thorough") {
+                Ok(r) => {
+                    if r["violations"].as_array().map(|a| a.iter().any(|x| x["sig"] == sig.as_str())).unwrap_or(false) {
+                        println!("replay: reproduced {sig}");
+                        println!("VIOLATION property=C18 replay={p}");
+                        1
+                    } else {
+                        println!("replay: no violation with signature {sig}");
+                        0
+                    }
+                }
+                Err(e) => {
+                    eprintln!("machinery error: {e}");
+                    2
+                }
+            };
+        }
         let env = c["row"]["env"].as_str().unwrap_or("").to_string();
         let all = rows("thorough");
         let want = c["row"].clone();
@@ -546,9 +573,25 @@ pub fn run(tier: &str, replay: Option<&str>) -> i32 {
     }
     let all = rows(tier);
     let distinct: BTreeSet<String> = all.iter().map(|r| format!("{r:?}")).collect();
-    ev.set("evaluations", tot["evals"]);
+    // server-level slice: exit status of the real binary (srvmc C18S)
+    let mut srv_launches = 0u64;
+    match run_server_slice(tier) {
+        Ok(v) => {
+            srv_launches = v["launches"].as_u64().unwrap_or(0);
+            rep.report_bag(&v["violations"]);
+            ev.set("server_slice_launches_of_the_real_binary", v["launches"].clone());
+            ev.set("server_slice_unsafe_configurations_refused_with_nonzero_exit", v["unsafe_refused"].clone());
+            ev.set("server_slice_safe_configurations_started", v["safe_started"].clone());
+            ev.set("server_slice_outcomes", v["outcomes"].clone());
+        }
+        Err(e) => {
+            eprintln!("C18: machinery error in the server-level slice: {e}");
+            return 2;
+        }
+    }
+    ev.set("evaluations", tot["evals"] + srv_launches);
     ev.set("distinct_nontrivial", tot["accepted"]);
-    ev.set("rule", "full cross product environment x fsync {none,data_only,full} x snapshot interval {0,5} x recovery {strict,best_effort} x strategy {lru,learned,abtest} x auth x rate limit x observability auth {disabled,metrics_and_slo,all} x fresh-start flag x TLS x bind host, plus a 'several remaining settings at once' variant on every 7th row; each row delivered three ways (TOML file, YAML file, KYRODB__ environment overrides over defaults) through KyroDbConfig::load + validate, and additionally as environment overrides on top of each configuration template shipped in the repository (config.pilot.{toml,yaml}, config.example.{toml,yaml}); on the one-step frontier (rows that are safe or violate exactly one condition) every single deviation of a remaining setting (all other configuration fields, incl. http_host loopback / non-loopback) x the three routes; oracle: accepted => independent safety predicate transcribed from the property; the three self-contained routes must agree; non-trivial = accepted evaluations");
+    ev.set("rule", "full cross product environment x fsync {none,data_only,full} x snapshot interval {0,5} x recovery {strict,best_effort} x strategy {lru,learned,abtest} x auth x rate limit x observability auth {disabled,metrics_and_slo,all} x fresh-start flag x TLS x bind host, plus a 'several remaining settings at once' variant on every 7th row; each row delivered three ways (TOML file, YAML file, KYRODB__ environment overrides over defaults) through KyroDbConfig::load + validate, and additionally as environment overrides on top of each configuration template shipped in the repository (config.pilot.{toml,yaml}, config.example.{toml,yaml}); on the one-step frontier (rows that are safe or violate exactly one condition) every single deviation of a remaining setting (all other configuration fields, incl. http_host loopback / non-loopback) x the three routes; oracle: accepted => independent safety predicate transcribed from the property; the three self-contained routes must agree; non-trivial = accepted evaluations. server level: the REAL binary is launched on loopback with one configuration per (environment, single violated condition) x {TOML, YAML, environment overrides}: an unsafe configuration must make the process exit non-zero before its port opens; safe baselines (production, pilot with a real API-key file, benchmark with everything off) must start");
     ev.set("remaining_setting_deviations", deviations().len() as u64);
     ev.set("frontier_rows", tot["frontier"]);
     ev.set("deviation_evaluations", tot["dev_evals"]);
@@ -566,6 +609,7 @@ pub fn run(tier: &str, replay: Option<&str>) -> i32 {
     ev.set("rejected", tot["rejected"]);
     ev.set("accepted_by_environment", json!(by_env));
     ev.set("rows_where_routes_disagree", tot["route_disagree"]);
+    ev.assume("server-level slice: 'refuses to start' = the process exits with a non-zero status before its gRPC port accepts a connection");
     ev.assume("api_keys_file / TLS cert+key paths are supplied whenever auth / TLS are enabled so that rows are not rejected for unrelated reasons");
     ev.assume("loopback = the host (brackets stripped) is 'localhost' or parses as a loopback IP address");
     ev.violations = rep.violations as i64;
